@@ -24,7 +24,7 @@ GROUPS: dict[str, list[tuple[str, str]]] = {
     "compile": [],
     "jacobian": [("core/compiler.py", n) for n in ("compile_gradient", "_compile_vectorized_power_gradient",
                                                     "_compile_vectorized_unary_gradient")]
-                + [("core/autodiff.py", n) for n in ("compile_jacobian", "_is_scaled_variable_pattern")],
+                + [("core/autodiff.py", n) for n in ("compile_jacobian",)],   # _is_scaled_variable_pattern: py2lean_scaled.py
     # compute_jacobian / compute_hessian are translated (py2lean_symjac.py)
     "hessian": [("core/autodiff.py", "compile_hessian")],
     # compute_degree, _compute_degree_cached, is_linear, is_quadratic, Expression.degree are translated (py2lean_degentry.py)
